@@ -124,6 +124,18 @@ def gen_size_session(rng):
     sess.emit('* enddef %d' % f, kind='enddef', size_rule=[ok, decided], fmt=fmt,
               sizes=[[v[0], [dims[d] for d in v[1]]] for v in vars_])
     sess.emit('* inq %d' % f, kind='inq')
+    total0 = 1024 + sum((ELSIZE[xt] * max(1, __import__('math').prod([dims[d] for j, d in enumerate(ids) if not (j == 0 and dims[d] == 0)])))
+                        for xt, ids in vars_)
+    if ok and total0 >= 2**63:
+        # the end offset of the data section exceeds 2^63-1: offsets of later variables overflow (known
+        # finding); no data access is attempted, the session only shows that the file cannot be reopened
+        class S_: pass
+        s = S_(); s.vars = []; s.fmt = fmt; s.dims = []
+        sess.s = s
+        sess.emit('* close %d' % f)
+        sess.emit('* open %d 0' % f, kind='open', end_overflow=True)
+        sess.emit('* close %d' % f)
+        return sess
     if ok:
         # single elements at the first and last index of every variable
         schema_vars = []
@@ -134,7 +146,21 @@ def gen_size_session(rng):
         class S_: pass
         s = S_(); s.vars = schema_vars; s.fmt = fmt; s.dims = [('d%d' % i, l) for i, l in enumerate(dims)]
         sess.s = s
+        # variables that start beyond 2^41 cannot be touched (file system limit on sparse files)
+        acc = 1024; reachable = set()
+        for v in [x for x in schema_vars if not x.isrec] + [x for x in schema_vars if x.isrec]:
+            if acc < 2**41:
+                reachable.add(v.vid)
+            n = ELSIZE[v.xtype]
+            for i, l in enumerate(v.shape):
+                if not (i == 0 and v.isrec):
+                    n *= l
+            acc += n
+        if any(x.isrec for x in schema_vars) and acc >= 2**41:
+            reachable -= {x.vid for x in schema_vars if x.isrec}      # record stride too large
         for v in schema_vars:
+            if v.vid not in reachable:
+                continue
             for which in ('first', 'last', 'mid'):
                 idx = []
                 for i, l in enumerate(v.shape):
@@ -172,7 +198,7 @@ def gen_size_session(rng):
             sess.emit('* close %d' % f)
             return sess
         for v in schema_vars:
-            if v.isrec:
+            if v.isrec or v.vid not in reachable:
                 continue
             sess.one_access('get', 'c', v, [0] * v.nd, [1] * v.nd, [1] * v.nd, forget=True, form='var1')
         sess.emit('* close %d' % f)
